@@ -30,6 +30,18 @@ SEL = {
  "C19": [r"^babyjub\.(Point\.(Mul|Set|Decompress)|Signature\.Decompress|SignatureComp\.Decompress)"],
  "C20": [r"^keccak256\.", r"^babyjub\.Blake512"],
 }
+# property -> packages of /repo its statement depends on (transitively): their file layout, build constraints, import
+# blocks and non-code files are pinned (tree.<layout>@pkg), their declarations, and their function SETS (nothing added
+# or removed, e.g. an init() in a new or existing file).  C16/C17 quantify over every operation: all packages.
+ALLP = ["babyjub", "constants", "ff", "ffg", "goldenposeidon", "keccak256", "mimc7", "poseidon", "utils"]
+CURVE = ["babyjub", "utils", "ff", "constants"]
+EDDSA = ["babyjub", "poseidon", "mimc7", "keccak256", "utils", "ff", "constants"]
+DEPS = {
+ "C01": ["poseidon", "utils", "ff", "constants"], "C02": EDDSA, "C03": EDDSA, "C04": CURVE, "C05": ["ff"], "C06": CURVE,
+ "C07": ["poseidon", "mimc7", "keccak256", "utils", "ff", "constants"], "C08": ["mimc7", "keccak256", "utils", "ff", "constants"],
+ "C09": ["ffg"], "C10": ["goldenposeidon", "ffg"], "C11": ["ff", "ffg"], "C12": CURVE, "C13": CURVE, "C14": EDDSA,
+ "C15": CURVE, "C16": ALLP, "C17": ALLP, "C18": ["ff", "ffg"], "C19": CURVE, "C20": ["keccak256", "babyjub"],
+}
 def q(s): return '"' + s + '"'
 
 # Functions whose T6 translation is tied to the model by a bridge lemma need no source pin for a property whose
@@ -68,9 +80,10 @@ with open(os.path.join(LEAN, "I3", "Model", "SourcePin.lean"), "w") as f:
             "/-- the function keys of a package (prefix) are the pinned ones: nothing added, nothing removed. -/\n"
             "def sameKeys (cur : List (String × String)) (pfx : String) : Bool :=\n"
             "  ((cur.map (·.1)).filter (·.startsWith pfx)) == ((pinned.map (·.1)).filter (·.startsWith pfx))\n\nend I3.SourcePin\n")
-for pid, res in SEL.items():
+for pid in sorted(DEPS):
+    res = SEL.get(pid, [])
     sel = [k for k in keys if any(re.search(r, k) for r in res)]
-    assert sel, pid
+    assert sel or pid in ("C16", "C17"), pid
     # Relaxation is OFF by default: T6's value semantics cannot see every change (two live names for one cell, nil,
     # index out of range), so the pins stay as the complete backstop; `--relax` is for experiments only.
     br = bridged_for(pid) if "--relax" in sys.argv else set()
@@ -78,9 +91,11 @@ for pid, res in SEL.items():
     sel = [k for k in sel if k not in br]
     if dropped:
         print(f"{pid}: {len(dropped)} functions tied by T6 bridge lemmas instead of a source pin: {' '.join(dropped)}")
-    if not sel:
+    if not sel and res:
         sel = [k for k in keys if "<decls>" in k and any(re.search(r, k.replace("<decls>", "x")) for r in res)][:1] or dropped[:1]
-    pkgs = sorted({k.split(".")[0] + "." for k in sel})
+    pkgs = sorted({k.split(".")[0] + "." for k in sel} | {d + "." for d in DEPS[pid]})
+    # layout of every package the property depends on, and of the module root
+    sel += [k for k in keys if k.startswith("tree.<layout>@") and (k.split("@")[1] in DEPS[pid] or k.endswith("@root"))]
     # the non-function declarations (types, constants, variable initialisers) of every package touched
     sel += [k for k in keys if ("<decls>" in k or "<asm>" in k) and k.split(".")[0] + "." in pkgs and k not in sel]
     # properties that rest on third-party code (sha3, blake512, x/sys/cpu feature detection): the dependency closure
@@ -98,4 +113,4 @@ for pid, res in SEL.items():
                 f"theorem modelled_nonempty : {len(sel)} = modelled.length := by decide\n\nend I3.Props.{pid}\n")
     with open(os.path.join(LEAN, "I3", "Audit", pid + "Pin.lean"), "w") as f:
         f.write(f"import I3.Props.{pid}Pin\n#print axioms I3.Props.{pid}.source_pinned\n#print axioms I3.Props.{pid}.function_set_pinned\n")
-print("pins written for", len(SEL), "properties;", len(fp), "functions")
+print("pins written for", len(DEPS), "properties;", len(fp), "functions")
